@@ -1,13 +1,1156 @@
-//! C08 — stub (not built yet; not registered in MANIFEST.json).
-use super::*;
+//! C08 — references keep their target cells across row/column insert and remove.
+//!
+//! A 2..3-sheet workbook (sheet names incl. ones that need quotes) holds formula cells (found
+//! again by a tag, never by position), defined names and chart series; a history of 1..6
+//! workbook-level `Spreadsheet::{insert_new_row, insert_new_column_by_index, remove_row,
+//! remove_column_by_index}` runs; every reference is compared with the reference shifter
+//! working on the generator's AST (gen::formula::edit_area_history).
+use super::c09::{classify, judge_output, prepare, Outcome};
+use super::Prop;
+use crate::engine::*;
+use crate::gen::formula::*;
+use proptest::prelude::*;
+use serde::{Deserialize, Serialize};
+use std::collections::BTreeSet;
 
 pub fn prop() -> Prop {
     Prop {
         id: "C08",
-        describe: |_| {},
-        subs: no_subs,
-        extra: no_extra,
-        replay_extra: no_replay_extra,
-        watchdog_s: (900, 7200),
+        describe,
+        subs,
+        extra: super::no_extra,
+        replay_extra: super::no_replay_extra,
+        watchdog_s: (900, 14400),
     }
+}
+
+fn describe(ctx: &Ctx) {
+    ctx.rule("a case = workbook of 2..3 sheets (names incl. blanks, punctuation, apostrophes) + 1..4 formula cells from the formula grammar (depth <= 6, qualifiers bound to the workbook's sheets or to external books) + defined names + chart series + a history of 1..6 workbook-level insert/remove row/column edits on any sheet; non-trivial = some formula has a reference into an edited sheet that the history moves or deletes AND a token that must stay unchanged (string, function name, reference into another sheet), or a defined name / chart series that the history moves or deletes; distinct by (sub-check, case JSON)");
+    ctx.assume("in-range arguments only: an insert never pushes a referenced cell (or the formula cells) past the grid edge; the count is reduced (or the edit turned into a removal) by construction");
+    ctx.assume("a range with one deleted corner may shrink to the surviving part or become #REF!; #REF! may keep or lose the sheet qualifier; a defined-name address whose target is deleted may also be dropped");
+    ctx.assume("formula cells are found by a tag in their cached value, so the check does not depend on where the cell store physically puts them (R5: the workbook-level edits currently shift every sheet physically; that defect belongs to C07/C10)");
+    ctx.assume("defined names and chart series are compared as (sheet, area) pairs: their quoting style is not part of this property");
+}
+
+#[derive(Debug, Clone, Serialize, Deserialize)]
+pub struct FCell {
+    pub host: u16,
+    pub at: (u8, u8),
+    pub expr: Expr,
+    pub blanks: Vec<u8>,
+}
+
+#[derive(Debug, Clone, Serialize, Deserialize)]
+pub struct DName {
+    /// sheet whose `defined_names` list holds the name
+    pub holder: u16,
+    /// holder = the sheet of the first address (what the reader does for global names)
+    pub holder_is_target: bool,
+    pub parts: Vec<(u16, Area)>,
+}
+
+#[derive(Debug, Clone, Serialize, Deserialize)]
+pub struct Series {
+    pub holder: u16,
+    pub targets: Vec<(u16, Area)>,
+}
+
+#[derive(Debug, Clone, Serialize, Deserialize)]
+pub struct OpRaw {
+    pub sheet: u16,
+    /// 0 insert rows, 1 insert cols, 2 remove rows, 3 remove cols
+    pub kind: u8,
+    pub at: u32,
+    pub n: u16,
+}
+
+#[derive(Debug, Clone, Serialize, Deserialize)]
+pub struct Case {
+    pub clean: bool,
+    pub sheets: Vec<String>,
+    pub cells: Vec<FCell>,
+    pub names: Vec<DName>,
+    pub series: Vec<Series>,
+    pub ops: Vec<OpRaw>,
+}
+
+// ---------------------------------------------------------------------------------------
+// generators
+
+fn wb_sheet_name() -> BoxedStrategy<String> {
+    prop_oneof![
+        4 => "[A-Z][a-z]{2,6}[0-9]{0,1}".prop_map(|s| s),
+        4 => prop::sample::select(vec!["My Sheet", "Q1 2024", "Sales Data", "P&L", "2024", "Jan-Feb", "a b c", "x(1)", "A1", "a,b", "Données", "日本"]).prop_map(|s| s.to_string()),
+        1 => prop::sample::select(vec!["It's", "a'b", "a!b", "x\"y", "O'Neil's"]).prop_map(|s| s.to_string()),
+        1 => crate::gen::text::sheet_name(),
+    ]
+    .boxed()
+}
+
+fn sheets() -> BoxedStrategy<Vec<String>> {
+    prop::collection::vec(wb_sheet_name(), 2..=3)
+        .prop_map(|v| {
+            let mut out: Vec<String> = Vec::new();
+            for (i, mut s) in v.into_iter().enumerate() {
+                if out.iter().any(|o| o.to_lowercase() == s.to_lowercase()) {
+                    let keep: String = s.chars().take(28).collect();
+                    s = format!("{}_{}", keep, i);
+                }
+                out.push(s);
+            }
+            out
+        })
+        .boxed()
+}
+
+fn op_raw() -> BoxedStrategy<OpRaw> {
+    (
+        any::<u16>(),
+        0u8..4,
+        prop_oneof![
+            8 => 1u32..=14,
+            2 => prop::sample::select(vec![1u32, 2, 3, 26, 27, 28, 99, 100, 101, 702, 703, 16382, 16383, 16384, 65536, 1048574, 1048575, 1048576]),
+            1 => 1u32..=MAX_ROW,
+        ],
+        prop_oneof![6 => 1u16..=3, 2 => 1u16..=12, 1 => 1u16..=300],
+    )
+        .prop_map(|(sheet, kind, at, n)| OpRaw { sheet, kind, at, n })
+        .boxed()
+}
+
+fn fcell() -> BoxedStrategy<FCell> {
+    (any::<u16>(), (1u8..=8, 1u8..=8), expr(), blank_plan()).prop_map(|(host, at, expr, blanks)| FCell { host, at, expr, blanks }).boxed()
+}
+
+/// areas a defined name / chart series may carry (`all` adds whole rows/columns)
+fn name_area(all: bool) -> BoxedStrategy<Area> {
+    if all {
+        area()
+    } else {
+        area()
+            .prop_map(|a| match a {
+                Area::Rows { r1, a1, r2, a2 } => Area::Range(CellRef { col: 1, row: r1, abs_col: true, abs_row: a1 }, CellRef { col: 3, row: r2, abs_col: true, abs_row: a2 }),
+                Area::Cols { c1, a1, c2, a2 } => Area::Range(CellRef { col: c1, row: 1, abs_col: a1, abs_row: true }, CellRef { col: c2, row: 4, abs_col: a2, abs_row: true }),
+                o => o,
+            })
+            .boxed()
+    }
+}
+
+fn dname() -> BoxedStrategy<DName> {
+    (any::<u16>(), prop::bool::weighted(0.8), prop::collection::vec((any::<u16>(), name_area(true)), 1..=2))
+        .prop_map(|(holder, holder_is_target, parts)| DName { holder, holder_is_target, parts })
+        .boxed()
+}
+
+fn series() -> BoxedStrategy<Series> {
+    (any::<u16>(), prop::collection::vec((any::<u16>(), name_area(false)), 1..=3)).prop_map(|(holder, targets)| Series { holder, targets }).boxed()
+}
+
+fn case_strategy(clean: bool, n_cells: (usize, usize), n_names: (usize, usize), n_series: (usize, usize)) -> BoxedStrategy<Case> {
+    // defined names see the edits of every sheet (open finding R5): to keep names that can be
+    // asserted strictly, most names and most edits of the name/series strata go to sheet 0
+    let focus = n_names.1 > 0 && clean;
+    (
+        sheets(),
+        prop::collection::vec(fcell(), n_cells.0..=n_cells.1),
+        prop::collection::vec(dname(), n_names.0..=n_names.1),
+        prop::collection::vec(series(), n_series.0..=n_series.1),
+        prop::collection::vec(op_raw(), 1..=6),
+    )
+        .prop_map(move |(sheets, cells, mut names, series, mut ops)| {
+            if focus {
+                for o in ops.iter_mut() {
+                    if o.sheet % 10 < 7 {
+                        o.sheet = 0;
+                    }
+                }
+                for d in names.iter_mut() {
+                    for p in d.parts.iter_mut() {
+                        if p.0 % 10 < 7 {
+                            p.0 = 0;
+                        }
+                    }
+                }
+            }
+            Case { clean, sheets, cells, names, series, ops }
+        })
+        .boxed()
+}
+
+fn cells_cases(_t: Tier) -> BoxedStrategy<Case> {
+    case_strategy(true, (1, 4), (0, 0), (0, 0))
+}
+fn names_cases(_t: Tier) -> BoxedStrategy<Case> {
+    case_strategy(true, (0, 1), (1, 3), (0, 0))
+}
+fn series_cases(_t: Tier) -> BoxedStrategy<Case> {
+    case_strategy(true, (0, 1), (0, 0), (1, 2))
+}
+fn dirty_cases(_t: Tier) -> BoxedStrategy<Case> {
+    case_strategy(false, (0, 3), (0, 2), (0, 1))
+}
+
+// ---------------------------------------------------------------------------------------
+// model
+
+/// which sheet a reference of a formula hosted on `host` designates (None: not a sheet of
+/// this workbook, e.g. an external book)
+fn target_of(r: &RefNode, host: usize, sheets: &[String]) -> Option<usize> {
+    match &r.qual {
+        None => Some(host),
+        Some(q) if q.is_external() => None,
+        Some(q) => sheets.iter().position(|s| *s == q.sheet),
+    }
+}
+
+fn bind(e: &Expr, sheets: &[String]) -> Expr {
+    let fix = |q: &Qual| -> Qual {
+        let mut q = q.clone();
+        q.sheet = sheets[pick_idx(q.pick, sheets.len())].clone();
+        q
+    };
+    e.map(&mut |x| match x {
+        Expr::Ref(r) => Expr::Ref(RefNode { qual: r.qual.as_ref().map(fix), area: r.area }),
+        Expr::Name { qual, name } => Expr::Name { qual: qual.as_ref().map(fix), name },
+        Expr::Err { qual, text } => Expr::Err { qual: qual.as_ref().map(fix), text },
+        o => o,
+    })
+}
+
+/// Resolved case: everything the library run and the oracle need.
+#[derive(Debug, Clone)]
+pub struct Resolved {
+    pub sheets: Vec<String>,
+    /// (host, at, expr, blanks)
+    pub cells: Vec<(usize, (u32, u32), Expr, Vec<u8>)>,
+    /// (holder, parts)
+    pub names: Vec<(usize, Vec<(usize, Area)>)>,
+    pub series: Vec<(usize, Vec<(usize, Area)>)>,
+    pub edits: Vec<(usize, Edit)>,
+    pub excluded: Vec<String>,
+}
+
+impl Resolved {
+    pub fn edits_on(&self, sheet: usize) -> Vec<Edit> {
+        self.edits.iter().filter(|(s, _)| *s == sheet).map(|(_, e)| *e).collect()
+    }
+}
+
+fn axis_max(a: &Area, rows: bool) -> u32 {
+    if rows {
+        a.max_row().unwrap_or(0)
+    } else {
+        a.max_col().unwrap_or(0)
+    }
+}
+
+/// Turn the raw ops into in-range edits: an insert never pushes a reference into the edited
+/// sheet (in any accepted state) or a formula cell past the grid edge.
+fn fit_ops(ops: &[OpRaw], n_sheets: usize, tracked: &[(usize, Area)]) -> Vec<(usize, Edit)> {
+    let mut states: Vec<(usize, Vec<Option<Area>>)> = tracked.iter().map(|(s, a)| (*s, vec![Some(a.clone())])).collect();
+    let mut out = Vec::new();
+    for op in ops {
+        let s = pick_idx(op.sheet, n_sheets);
+        let rows = op.kind % 2 == 0;
+        let max = if rows { MAX_ROW } else { MAX_COL };
+        let mut n = op.n.max(1) as u32;
+        let mut insert = op.kind < 2;
+        if insert {
+            // physical content (formula cells, chart anchors) lives in the first few hundred
+            // rows/columns even after earlier inserts
+            let mut top = 4000u32;
+            for (t, alts) in &states {
+                if *t == s {
+                    for a in alts.iter().flatten() {
+                        top = top.max(axis_max(a, rows));
+                    }
+                }
+            }
+            let room = max - top.min(max);
+            n = n.min(room);
+            if n == 0 {
+                insert = false;
+                n = op.n.max(1) as u32;
+            }
+        }
+        let edit = if insert {
+            let at = op.at.clamp(1, max);
+            if rows {
+                Edit::InsertRows { at, n }
+            } else {
+                Edit::InsertCols { at, n }
+            }
+        } else {
+            let n = n.min(max);
+            let at = op.at.clamp(1, max - n + 1);
+            if rows {
+                Edit::RemoveRows { at, n }
+            } else {
+                Edit::RemoveCols { at, n }
+            }
+        };
+        for (t, alts) in states.iter_mut() {
+            if *t == s {
+                let mut next = Vec::new();
+                for a in alts.iter() {
+                    let outs = match a {
+                        None => vec![None],
+                        Some(a) => edit_area(a, &edit),
+                    };
+                    for o in outs {
+                        if !next.contains(&o) {
+                            next.push(o);
+                        }
+                    }
+                }
+                *alts = next;
+            }
+        }
+        out.push((s, edit));
+    }
+    out
+}
+
+/// does a cell at (col,row) survive the edits physically?
+fn survives(mut pos: (u32, u32), edits: &[Edit]) -> bool {
+    for e in edits {
+        match *e {
+            Edit::InsertRows { at, n } => {
+                if pos.1 >= at {
+                    pos.1 += n
+                }
+            }
+            Edit::InsertCols { at, n } => {
+                if pos.0 >= at {
+                    pos.0 += n
+                }
+            }
+            Edit::RemoveRows { at, n } => {
+                if pos.1 >= at && pos.1 < at + n {
+                    return false;
+                }
+                if pos.1 >= at + n {
+                    pos.1 -= n
+                }
+            }
+            Edit::RemoveCols { at, n } => {
+                if pos.0 >= at && pos.0 < at + n {
+                    return false;
+                }
+                if pos.0 >= at + n {
+                    pos.0 -= n
+                }
+            }
+        }
+    }
+    true
+}
+
+pub fn resolve(c: &Case) -> Resolved {
+    let mut excluded = Vec::new();
+    let sheets = c.sheets.clone();
+    let n = sheets.len();
+    // formula cells: distinct (host, at)
+    let mut cells: Vec<(usize, (u32, u32), Expr, Vec<u8>)> = Vec::new();
+    for f in &c.cells {
+        let host = pick_idx(f.host, n);
+        let at = (f.at.0 as u32, f.at.1 as u32);
+        if cells.iter().any(|x| x.0 == host && x.1 == at) {
+            continue;
+        }
+        let mut e = bind(&f.expr, &sheets);
+        if c.clean {
+            e = e.map(&mut |x| match x {
+                Expr::Array(rows) => {
+                    excluded.push("array/altered".into());
+                    Expr::Paren(Box::new(rows[0][0].clone()))
+                }
+                Expr::At(inner) => {
+                    excluded.push("at/dropped".into());
+                    *inner
+                }
+                o => o,
+            });
+        }
+        cells.push((host, at, e, f.blanks.clone()));
+    }
+    let part = |p: &(u16, Area)| (pick_idx(p.0, n), p.1.clone());
+    let mut names: Vec<(usize, Vec<(usize, Area)>)> = Vec::new();
+    for d in &c.names {
+        let mut parts: Vec<(usize, Area)> = d.parts.iter().map(part).collect();
+        let mut holder = if d.holder_is_target { parts[0].0 } else { pick_idx(d.holder, n) };
+        if c.clean {
+            // open findings: names held by another sheet than the one they refer to, second
+            // addresses on another sheet, whole rows/columns
+            if holder != parts[0].0 {
+                excluded.push("defined-name-foreign-holder/not-adjusted".into());
+                holder = parts[0].0;
+            }
+            if punct_multi(&sheets, &parts) {
+                excluded.push("defined-name-multi-on-punct-sheet/not-adjusted".into());
+                parts.truncate(1);
+            }
+            let before = parts.len();
+            let first = parts[0].0;
+            parts.retain(|p| p.0 == first);
+            if parts.len() != before {
+                excluded.push("defined-name-foreign-holder/not-adjusted".into());
+            }
+            for p in parts.iter_mut() {
+                match p.1.clone() {
+                    Area::Rows { r1, a1, r2, a2 } => {
+                        excluded.push("defined-name-whole-rows-cols/not-adjusted".into());
+                        p.1 = Area::Range(CellRef { col: 1, row: r1, abs_col: true, abs_row: a1 }, CellRef { col: 3, row: r2, abs_col: true, abs_row: a2 });
+                    }
+                    Area::Cols { c1, a1, c2, a2 } => {
+                        excluded.push("defined-name-whole-rows-cols/not-adjusted".into());
+                        p.1 = Area::Range(CellRef { col: c1, row: 1, abs_col: a1, abs_row: true }, CellRef { col: c2, row: 4, abs_col: a2, abs_row: true });
+                    }
+                    _ => {}
+                }
+            }
+        }
+        names.push((holder, parts));
+    }
+    let mut series: Vec<(usize, Vec<(usize, Area)>)> = Vec::new();
+    for s in &c.series {
+        let holder = pick_idx(s.holder, n);
+        if series.iter().any(|x| x.0 == holder) {
+            continue; // one chart per sheet
+        }
+        series.push((holder, s.targets.iter().map(part).collect()));
+    }
+    // references the edits must respect
+    let mut tracked: Vec<(usize, Area)> = Vec::new();
+    for (host, _at, e, _b) in &cells {
+        for r in e.refs() {
+            if let Some(t) = target_of(r, *host, &sheets) {
+                tracked.push((t, r.area.clone()));
+            }
+        }
+    }
+    for (_, parts) in names.iter().chain(series.iter()) {
+        for p in parts {
+            tracked.push(p.clone());
+        }
+    }
+    let edits = fit_ops(&c.ops, n, &tracked);
+    // put every formula cell where no removal deletes it, whether the edits of other sheets
+    // physically reach its sheet (R5) or not; the position is irrelevant to its references
+    let mut taken: Vec<(usize, (u32, u32))> = Vec::new();
+    for cell in cells.iter_mut() {
+        let host = cell.0;
+        let own: Vec<Edit> = edits.iter().filter(|(s, _)| *s == host).map(|(_, e)| *e).collect();
+        let all: Vec<Edit> = edits.iter().map(|(_, e)| *e).collect();
+        let mut pos = cell.1;
+        for k in 0..80u32 {
+            let cand = (cell.1 .0 + k * 7, cell.1 .1 + k * 11);
+            if survives(cand, &own) && survives(cand, &all) && !taken.contains(&(host, cand)) {
+                pos = cand;
+                break;
+            }
+        }
+        cell.1 = pos;
+        taken.push((host, pos));
+    }
+    let mut r = Resolved { sheets, cells, names, series, edits, excluded };
+    if c.clean {
+        steer_refs(&mut r);
+        // open findings (R11): Address/Range based objects mishandle a deleted corner
+        let mut excluded = Vec::new();
+        let edits = r.edits.clone();
+        let on = |t: usize| -> Vec<Edit> { edits.iter().filter(|(s, _)| *s == t).map(|(_, e)| *e).collect() };
+        let all: Vec<Edit> = edits.iter().map(|(_, e)| *e).collect();
+        for (key, list) in [("defined-name/deleted-corner", &mut r.names), ("chart-series/deleted-corner", &mut r.series)] {
+            for (_, parts) in list.iter_mut() {
+                let before = parts.len();
+                parts.retain(|(t, a)| {
+                    let outs = edit_area_history(a, &on(*t));
+                    outs.len() == 1 && outs[0].is_some()
+                });
+                for _ in parts.len()..before {
+                    excluded.push(key.to_string());
+                }
+            }
+            list.retain(|(_, parts)| !parts.is_empty());
+        }
+        // open finding: Address::set_address keeps the doubled apostrophe of a quoted sheet name
+        for (_, parts) in r.series.iter_mut() {
+            let before = parts.len();
+            let sh = r.sheets.clone();
+            parts.retain(|(t, _)| !sh[*t].contains('\''));
+            for _ in parts.len()..before {
+                excluded.push("chart-series@apos-sheet/not-adjusted".to_string());
+            }
+        }
+        r.series.retain(|(_, parts)| !parts.is_empty());
+        // open finding (R5, owned by C07/C10): the edit of another sheet is applied to the
+        // defined names of every sheet
+        for (_, parts) in r.names.iter_mut() {
+            let before = parts.len();
+            parts.retain(|(t, a)| edit_area_history(a, &on(*t)) == edit_area_history(a, &all));
+            for _ in parts.len()..before {
+                excluded.push("defined-name/other-sheet-edit-applied".to_string());
+            }
+        }
+        r.names.retain(|(_, parts)| !parts.is_empty());
+        r.excluded.extend(excluded);
+    }
+    r
+}
+
+/// Clean strata: whole rows/columns that the history would move are replaced by ranges
+/// (open finding: whole rows/columns are never shifted).
+fn steer_refs(r: &mut Resolved) {
+    let sheets = r.sheets.clone();
+    let edits = r.edits.clone();
+    let mut excluded = Vec::new();
+    for (host, _at, e, _b) in r.cells.iter_mut() {
+        let host = *host;
+        *e = e.map(&mut |x| match x {
+            Expr::Ref(rn) => {
+                let whole = matches!(rn.area, Area::Rows { .. } | Area::Cols { .. });
+                if whole {
+                    if let Some(t) = target_of(&rn, host, &sheets) {
+                        let ed: Vec<Edit> = edits.iter().filter(|(s, _)| *s == t).map(|(_, e)| *e).collect();
+                        let outs = edit_area_history(&rn.area, &ed);
+                        if outs != vec![Some(rn.area.clone())] {
+                            let (key, area) = match &rn.area {
+                                Area::Rows { r1, a1, r2, a2 } => (
+                                    "rows/not-shifted",
+                                    Area::Range(CellRef { col: 1, row: *r1, abs_col: true, abs_row: *a1 }, CellRef { col: 3, row: *r2, abs_col: true, abs_row: *a2 }),
+                                ),
+                                Area::Cols { c1, a1, c2, a2 } => (
+                                    "cols/not-shifted",
+                                    Area::Range(CellRef { col: *c1, row: 1, abs_col: *a1, abs_row: true }, CellRef { col: *c2, row: 4, abs_col: *a2, abs_row: true }),
+                                ),
+                                _ => unreachable!(),
+                            };
+                            excluded.push(key.to_string());
+                            return Expr::Ref(RefNode { qual: rn.qual, area });
+                        }
+                    }
+                }
+                Expr::Ref(rn)
+            }
+            o => o,
+        });
+    }
+    r.excluded.extend(excluded);
+}
+
+// ---------------------------------------------------------------------------------------
+// library run
+
+#[derive(Debug, Clone, Default)]
+pub struct Observed {
+    /// defined names / series as read back before the history (baseline)
+    pub names0: Vec<Option<String>>,
+    pub series0: Vec<Option<Vec<String>>>,
+    pub cells: Vec<Option<String>>,
+    pub names: Vec<Option<String>>,
+    pub series: Vec<Option<Vec<String>>>,
+}
+
+fn address_text(sheets: &[String], parts: &[(usize, Area)]) -> Vec<String> {
+    parts.iter().map(|(s, a)| format!("{}{}", Qual::plain(&sheets[*s]).text(), a.text())).collect()
+}
+
+pub fn run_workbook(r: &Resolved, texts: &[String]) -> Result<Observed, PanicInfo> {
+    guard(|| {
+        let mut book = umya_spreadsheet::new_file_empty_worksheet();
+        for s in &r.sheets {
+            book.new_sheet(s.clone()).unwrap();
+        }
+        for (i, (host, at, _e, _b)) in r.cells.iter().enumerate() {
+            let ws = book.get_sheet_mut(host).unwrap();
+            let cell = ws.get_cell_mut((at.0, at.1));
+            cell.set_formula(texts[i].clone());
+            cell.set_formula_result_default(format!("tag-{}", i));
+        }
+        for (i, (holder, parts)) in r.names.iter().enumerate() {
+            let addr = address_text(&r.sheets, parts).join(",");
+            let ws = book.get_sheet_mut(holder).unwrap();
+            ws.add_defined_name(format!("nm_{}", i), addr).unwrap();
+        }
+        for (holder, parts) in r.series.iter() {
+            let addrs = address_text(&r.sheets, parts);
+            let mut from = umya_spreadsheet::structs::drawing::spreadsheet::MarkerType::default();
+            from.set_coordinate("J2");
+            let mut to = umya_spreadsheet::structs::drawing::spreadsheet::MarkerType::default();
+            to.set_coordinate("P12");
+            let mut chart = umya_spreadsheet::structs::Chart::default();
+            chart.new_chart(umya_spreadsheet::structs::ChartType::LineChart, from, to, addrs.iter().map(|s| s.as_str()).collect());
+            book.get_sheet_mut(holder).unwrap().add_chart(chart);
+        }
+        let mut obs = Observed::default();
+        for (i, (holder, _)) in r.names.iter().enumerate() {
+            let nm = format!("nm_{}", i);
+            let ws = book.get_sheet(holder).unwrap();
+            obs.names0.push(ws.get_defined_names().iter().find(|d| d.get_name() == nm).map(|d| d.get_address()));
+        }
+        for (holder, _) in r.series.iter() {
+            let ws = book.get_sheet_mut(holder).unwrap();
+            let charts = ws.get_chart_collection_mut();
+            if charts.len() == 1 {
+                let v: Vec<String> = charts[0].get_plot_area_mut().get_formula_mut().into_iter().map(|f| f.get_address_str()).collect();
+                obs.series0.push(Some(v));
+            } else {
+                obs.series0.push(None);
+            }
+        }
+        for (s, e) in &r.edits {
+            let name = r.sheets[*s].as_str();
+            match e {
+                Edit::InsertRows { at, n } => book.insert_new_row(name, at, n),
+                Edit::InsertCols { at, n } => book.insert_new_column_by_index(name, at, n),
+                Edit::RemoveRows { at, n } => book.remove_row(name, at, n),
+                Edit::RemoveCols { at, n } => book.remove_column_by_index(name, at, n),
+            }
+        }
+        for (i, (host, _at, _e, _b)) in r.cells.iter().enumerate() {
+            let tag = format!("tag-{}", i);
+            let ws = book.get_sheet(host).unwrap();
+            let found: Vec<String> = ws.get_cell_collection().into_iter().filter(|c| c.get_value() == tag.as_str()).map(|c| c.get_formula().to_string()).collect();
+            obs.cells.push(if found.len() == 1 { Some(found[0].clone()) } else { None });
+        }
+        for (i, (holder, _)) in r.names.iter().enumerate() {
+            let nm = format!("nm_{}", i);
+            let ws = book.get_sheet(holder).unwrap();
+            obs.names.push(ws.get_defined_names().iter().find(|d| d.get_name() == nm).map(|d| d.get_address()));
+        }
+        for (holder, _) in r.series.iter() {
+            let ws = book.get_sheet_mut(holder).unwrap();
+            let charts = ws.get_chart_collection_mut();
+            if charts.len() == 1 {
+                let v: Vec<String> = charts[0].get_plot_area_mut().get_formula_mut().into_iter().map(|f| f.get_address_str()).collect();
+                obs.series.push(Some(v));
+            } else {
+                obs.series.push(None);
+            }
+        }
+        obs
+    })
+}
+
+// ---------------------------------------------------------------------------------------
+// oracle
+
+fn cell_expected(r: &Resolved, host: usize, e: &Expr) -> Vec<Tok> {
+    let map = |rn: &RefNode| -> Vec<Option<Area>> {
+        match target_of(rn, host, &r.sheets) {
+            None => vec![Some(rn.area.clone())],
+            Some(t) => edit_area_history(&rn.area, &r.edits_on(t)),
+        }
+    };
+    tokens(e, &map)
+}
+
+/// one formula cell alone in the same workbook under the same edits (used by the classifier)
+fn attempt_cell(r: &Resolved, host: usize, at: (u32, u32), e: &Expr, blanks: &[u8], lead: u8, trail: u8) -> Outcome {
+    let (text, input) = match prepare(e, blanks, lead, trail) {
+        Ok(x) => x,
+        Err(o) => return o,
+    };
+    let expected = cell_expected(r, host, e);
+    // a position on `host` that no removal deletes (the classifier also hosts variants on
+    // other sheets than the original one)
+    let own = r.edits_on(host);
+    let all: Vec<Edit> = r.edits.iter().map(|(_, e)| *e).collect();
+    let at = (0..200u32).map(|k| (at.0 + k * 7, at.1 + k * 11)).find(|c| survives(*c, &own) && survives(*c, &all)).unwrap_or(at);
+    let single = Resolved { sheets: r.sheets.clone(), cells: vec![(host, at, e.clone(), blanks.to_vec())], names: vec![], series: vec![], edits: r.edits.clone(), excluded: vec![] };
+    let lib = run_workbook(&single, &[text.clone()]).map(|o| match &o.cells[0] {
+        Some(s) => Ok(s.clone()),
+        None => Err("formula cell deleted by the history".to_string()),
+    });
+    judge_output(&text, &input, &expected, lib)
+}
+
+/// single reference for the classifier; `strip`: the equivalent unqualified reference, i.e.
+/// hosted on the sheet the qualifier designates (not possible for external references)
+fn ref_runner(r: &Resolved, host: usize, at: (u32, u32), rn: &RefNode, strip: bool, a: &Area) -> Outcome {
+    if strip {
+        match target_of(rn, host, &r.sheets) {
+            Some(t) if rn.qual.is_some() => attempt_cell(r, t, at, &Expr::Ref(RefNode { qual: None, area: a.clone() }), &[], 0, 0),
+            _ => Outcome::Pass,
+        }
+    } else {
+        attempt_cell(r, host, at, &Expr::Ref(RefNode { qual: rn.qual.clone(), area: a.clone() }), &[], 0, 0)
+    }
+}
+
+/// Parse `'Sheet'!$A$1,Sheet2!B2` into (sheet, area | None for #REF!).
+pub fn parse_address_list(s: &str, split: bool) -> Result<Vec<(String, Option<Area>)>, String> {
+    let mut parts: Vec<String> = Vec::new();
+    let mut cur = String::new();
+    let mut in_q = false;
+    for c in s.chars() {
+        if c == '\'' {
+            in_q = !in_q;
+            cur.push(c);
+        } else if c == ',' && !in_q && split {
+            parts.push(std::mem::take(&mut cur));
+        } else {
+            cur.push(c);
+        }
+    }
+    if !cur.is_empty() {
+        parts.push(cur);
+    }
+    let mut out = Vec::new();
+    for p in parts {
+        let (q, rest) = split_qualifier(&p);
+        let sheet = if q.is_empty() {
+            String::new()
+        } else {
+            let q = &q[..q.len() - 1];
+            if q.starts_with('\'') && q.ends_with('\'') && q.len() >= 2 {
+                q[1..q.len() - 1].replace("''", "'")
+            } else {
+                q.to_string()
+            }
+        };
+        if rest == "#REF!" {
+            out.push((sheet, None));
+        } else {
+            match parse_area(rest) {
+                Some(a) => out.push((sheet, Some(a))),
+                None => {
+                    // coordinates outside the grid (row/column 0, beyond XFD / 1048576)?
+                    let off = rest.split(':').any(|part| {
+                        let part = part.replace('$', "");
+                        let letters: String = part.chars().take_while(|c| c.is_ascii_uppercase()).collect();
+                        let digits: String = part.chars().skip(letters.len()).collect();
+                        let shape = digits.chars().all(|c| c.is_ascii_digit()) && letters.len() <= 3 && !(letters.is_empty() && digits.is_empty());
+                        shape && ((!letters.is_empty() && col_index(&letters) > MAX_COL) || (!digits.is_empty() && digits.parse::<u64>().map_or(true, |v| v == 0 || v > MAX_ROW as u64)))
+                    });
+                    return Err(format!("{}cannot parse address {:?}", if off { "off-grid: " } else { "" }, p));
+                }
+            }
+        }
+    }
+    Ok(out)
+}
+
+/// Compare an observed address list with the expected one.  On failure: (index of the failing
+/// part, symptom, detail).
+fn judge_addresses(r: &Resolved, parts: &[(usize, Area)], observed: &[(String, Option<Area>)], may_drop: bool) -> Option<(usize, String, String)> {
+    let mut j = 0usize;
+    for (i, (t, a)) in parts.iter().enumerate() {
+        let alts = edit_area_history(a, &r.edits_on(*t));
+        let can_die = alts.contains(&None);
+        let alive: Vec<&Area> = alts.iter().flatten().collect();
+        match observed.get(j) {
+            Some((s, Some(oa))) if *s == r.sheets[*t] && alive.contains(&oa) => {
+                j += 1;
+            }
+            Some((_, None)) if can_die => {
+                j += 1;
+            }
+            other => {
+                // the address may have been dropped (only if enough observed elements would
+                // then be left over for the remaining parts)
+                if can_die && may_drop && observed.len() - j.min(observed.len()) <= parts.len() - i - 1 {
+                    continue;
+                }
+                let symptom = match other {
+                    None => "address-lost",
+                    Some((s, _)) if *s != r.sheets[*t] => "sheet-changed",
+                    Some((_, Some(oa))) if oa == a => "not-adjusted",
+                    Some((_, Some(_))) if alive.is_empty() => "no-ref-error",
+                    Some((_, Some(_))) => "wrong-shift",
+                    Some((_, None)) => "spurious-ref-error",
+                };
+                return Some((
+                    i,
+                    symptom.to_string(),
+                    format!(
+                        "address {} {}!{}: accepted {:?}, observed {:?}",
+                        i,
+                        r.sheets[*t],
+                        a.text(),
+                        alts.iter().map(|x| x.as_ref().map(|a| a.text()).unwrap_or("#REF!".into())).collect::<Vec<_>>(),
+                        other.map(|(s, a)| format!("{}!{}", s, a.as_ref().map(|a| a.text()).unwrap_or("#REF!".into())))
+                    ),
+                ));
+            }
+        }
+    }
+    if j < observed.len() {
+        return Some((parts.len() - 1, "extra-address".into(), format!("observed {} addresses, expected {}", observed.len(), parts.len())));
+    }
+    None
+}
+
+/// multi-address names where DefinedName::split_str does not see the separating comma (it
+/// counts parentheses and double quotes even inside a quoted sheet name): the whole text is
+/// then kept as an opaque string and never adjusted
+fn punct_multi(sheets: &[String], parts: &[(usize, Area)]) -> bool {
+    if parts.len() < 2 {
+        return false;
+    }
+    let texts = address_text(sheets, parts);
+    let mut depth = 0i32;
+    let mut dq = 0usize;
+    for t in &texts[..texts.len() - 1] {
+        for c in t.chars() {
+            match c {
+                '(' => depth += 1,
+                ')' => depth -= 1,
+                '"' => dq += 1,
+                _ => {}
+            }
+        }
+        if depth != 0 || dq % 2 == 1 {
+            return true;
+        }
+    }
+    false
+}
+
+/// Root-cause class of a failing address part (None = no known structural cause: general).
+/// `holder`: Some for defined names.  Order matters: an opaque or foreign-held address is
+/// never adjusted at all, so R5 / deletion handling cannot be what went wrong for it.
+fn address_cause(r: &Resolved, kind: &str, holder: Option<usize>, parts: &[(usize, Area)], i: usize) -> Option<String> {
+    let (t, a) = &parts[i.min(parts.len() - 1)];
+    if holder.is_some() {
+        if parts.iter().any(|(_, a)| matches!(a, Area::Rows { .. } | Area::Cols { .. })) {
+            return Some(format!("{}-whole-rows-cols", kind));
+        }
+        if punct_multi(&r.sheets, parts) {
+            return Some(format!("{}-multi-on-punct-sheet", kind));
+        }
+        if Some(*t) != holder {
+            return Some(format!("{}-foreign-holder", kind));
+        }
+    } else if r.sheets[*t].contains('\'') {
+        return Some(format!("{}@apos-sheet", kind));
+    }
+    let own = edit_area_history(a, &r.edits_on(*t));
+    if holder.is_some() {
+        // R5: every sheet's defined names see every edit
+        let all: Vec<Edit> = r.edits.iter().map(|(_, e)| *e).collect();
+        if edit_area_history(a, &all) != own {
+            return Some(format!("{}:other-sheet-edit-applied", kind));
+        }
+    }
+    if own.contains(&None) {
+        return Some(format!("{}:deleted-corner", kind));
+    }
+    None
+}
+
+fn address_key(r: &Resolved, kind: &str, holder: Option<usize>, parts: &[(usize, Area)], i: usize, symptom: &str) -> String {
+    match address_cause(r, kind, holder, parts, i) {
+        // one key per structural cause (its symptoms vary with the numbers involved)
+        Some(c) if c.contains(':') => {
+            let (k, cause) = c.split_once(':').unwrap();
+            format!("{}/{}{}", k, cause, if symptom.starts_with("panic") { "-panic" } else { "" })
+        }
+        Some(c) => format!("{}/{}", c, symptom),
+        None => format!("{}/{}", kind, symptom),
+    }
+}
+
+/// the part a panic is attributed to: the first one with a structural cause that can panic
+fn panic_part(r: &Resolved, kind: &str, holder: Option<usize>, parts: &[(usize, Area)]) -> usize {
+    for i in 0..parts.len() {
+        if let Some(c) = address_cause(r, kind, holder, parts, i) {
+            if c.contains(':') {
+                return i;
+            }
+        }
+    }
+    0
+}
+
+/// a defined name alone (classifier)
+fn attempt_name(r: &Resolved, holder: usize, parts: &[(usize, Area)]) -> Option<(String, String)> {
+    let single = Resolved { sheets: r.sheets.clone(), cells: vec![], names: vec![(holder, parts.to_vec())], series: vec![], edits: r.edits.clone(), excluded: vec![] };
+    match run_workbook(&single, &[]) {
+        Err(p) => {
+            let i = panic_part(r, "defined-name", Some(holder), parts);
+            Some((address_key(r, "defined-name", Some(holder), parts, i, &format!("panic:{}", p.site())), format!("defined name {:?}: {}", address_text(&r.sheets, parts).join(","), p.short())))
+        }
+        Ok(o) => {
+            let r0 = Resolved { edits: vec![], ..r.clone() };
+            if judge_name(&r0, holder, parts, &o.names0[0]).is_some() {
+                None
+            } else {
+                judge_name(r, holder, parts, &o.names[0])
+            }
+        }
+    }
+}
+
+fn judge_name(r: &Resolved, holder: usize, parts: &[(usize, Area)], observed: &Option<String>) -> Option<(String, String)> {
+    let text = observed.clone().unwrap_or_default();
+    let shown = format!("defined name {:?} -> {:?}", address_text(&r.sheets, parts).join(","), text);
+    match parse_address_list(&text, true) {
+        Err(e) => {
+            let symptom = if e.starts_with("off-grid") { "off-grid-coordinate" } else { "unparsable" };
+            let i = panic_part(r, "defined-name", Some(holder), parts);
+            Some((address_key(r, "defined-name", Some(holder), parts, i, symptom), format!("{}: {}", shown, e)))
+        }
+        Ok(list) => judge_addresses(r, parts, &list, true).map(|(i, symptom, detail)| (address_key(r, "defined-name", Some(holder), parts, i, &symptom), format!("{}: {}", shown, detail))),
+    }
+}
+
+fn attempt_series(r: &Resolved, holder: usize, parts: &[(usize, Area)]) -> Option<(String, String)> {
+    let single = Resolved { sheets: r.sheets.clone(), cells: vec![], names: vec![], series: vec![(holder, parts.to_vec())], edits: r.edits.clone(), excluded: vec![] };
+    match run_workbook(&single, &[]) {
+        Err(p) => {
+            let i = panic_part(r, "chart-series", None, parts);
+            Some((address_key(r, "chart-series", None, parts, i, &format!("panic:{}", p.site())), format!("chart series {:?}: {}", address_text(&r.sheets, parts), p.short())))
+        }
+        Ok(o) => {
+            let r0 = Resolved { edits: vec![], ..r.clone() };
+            if judge_series(&r0, parts, &o.series0[0]).is_some() {
+                None
+            } else {
+                judge_series(r, parts, &o.series[0])
+            }
+        }
+    }
+}
+
+fn judge_series(r: &Resolved, parts: &[(usize, Area)], observed: &Option<Vec<String>>) -> Option<(String, String)> {
+    let Some(list) = observed else { return None }; // chart removed with its anchor rows/columns
+    if list.len() != parts.len() {
+        return Some(("chart-series/count".into(), format!("{} series formulas, expected {}", list.len(), parts.len())));
+    }
+    for (i, text) in list.iter().enumerate() {
+        let shown = format!("series {:?} -> {:?}", address_text(&r.sheets, &parts[i..i + 1])[0], text);
+        match parse_address_list(text, false) {
+            Err(e) => {
+                let symptom = if e.starts_with("off-grid") { "off-grid-coordinate" } else { "unparsable" };
+                return Some((address_key(r, "chart-series", None, parts, i, symptom), format!("{}: {}", shown, e)));
+            }
+            Ok(l) => {
+                if let Some((_, symptom, detail)) = judge_addresses(r, &parts[i..i + 1], &l, false) {
+                    return Some((address_key(r, "chart-series", None, parts, i, &symptom), format!("{}: {}", shown, detail)));
+                }
+            }
+        }
+    }
+    None
+}
+
+// ---------------------------------------------------------------------------------------
+// check
+
+fn label(c: &Case, r: &Resolved, obs: &mut Obs) {
+    let mut classes: BTreeSet<String> = BTreeSet::new();
+    classes.insert(format!("sheets:{}", r.sheets.len()));
+    for s in &r.sheets {
+        if s.contains('\'') {
+            classes.insert("sheet:apostrophe".into());
+        } else if needs_quote(s) {
+            classes.insert("sheet:needs-quote".into());
+        } else {
+            classes.insert("sheet:bare".into());
+        }
+    }
+    for (_, e) in &r.edits {
+        classes.insert(
+            match e {
+                Edit::InsertRows { .. } => "op:insert-rows",
+                Edit::InsertCols { .. } => "op:insert-cols",
+                Edit::RemoveRows { .. } => "op:remove-rows",
+                Edit::RemoveCols { .. } => "op:remove-cols",
+            }
+            .into(),
+        );
+    }
+    let edited: BTreeSet<usize> = r.edits.iter().map(|(s, _)| *s).collect();
+    if edited.len() >= 2 {
+        classes.insert("ops:several-sheets".into());
+    }
+    let mut nontrivial = false;
+    for (host, _at, e, _b) in &r.cells {
+        let mut moved = false;
+        let mut fixed_tok = false;
+        for t in tokens(e, &identity_map) {
+            if matches!(t.kind, Kind::Str | Kind::Func) {
+                fixed_tok = true;
+            }
+        }
+        for rn in e.refs() {
+            let cls = match target_of(rn, *host, &r.sheets) {
+                None => {
+                    fixed_tok = true;
+                    "ref:external"
+                }
+                Some(t) => {
+                    let outs = edit_area_history(&rn.area, &r.edits_on(t));
+                    if outs == vec![Some(rn.area.clone())] {
+                        if !edited.contains(&t) {
+                            fixed_tok = true;
+                            "ref:unedited-sheet"
+                        } else {
+                            "ref:before-edit"
+                        }
+                    } else {
+                        moved = true;
+                        if outs.len() > 1 {
+                            "ref:corner-deleted"
+                        } else if outs[0].is_none() {
+                            "ref:deleted"
+                        } else if rn.area.abs_kind() != "rel" {
+                            "ref:moved-abs"
+                        } else {
+                            "ref:moved"
+                        }
+                    }
+                }
+            };
+            classes.insert(cls.into());
+            if rn.qual.is_none() {
+                classes.insert("ref:unqualified".into());
+            } else if target_of(rn, *host, &r.sheets) == Some(*host) {
+                classes.insert("ref:self-qualified".into());
+            }
+        }
+        if moved && fixed_tok {
+            nontrivial = true;
+        }
+    }
+    for (holder, parts) in r.names.iter() {
+        for (t, a) in parts {
+            let outs = edit_area_history(a, &r.edits_on(*t));
+            if outs != vec![Some(a.clone())] {
+                nontrivial = true;
+                classes.insert(if outs.contains(&None) { "name:target-deleted" } else { "name:moved" }.into());
+            } else {
+                classes.insert("name:unchanged".into());
+            }
+            if t != holder {
+                classes.insert("name:foreign-holder".into());
+            }
+        }
+    }
+    for (_, parts) in r.series.iter() {
+        for (t, a) in parts {
+            let outs = edit_area_history(a, &r.edits_on(*t));
+            if outs != vec![Some(a.clone())] {
+                nontrivial = true;
+                classes.insert(if outs.contains(&None) { "series:target-deleted" } else { "series:moved" }.into());
+            } else {
+                classes.insert("series:unchanged".into());
+            }
+        }
+    }
+    let _ = c;
+    for cl in classes {
+        obs.class(cl);
+    }
+    obs.nontrivial(nontrivial);
+}
+
+fn check(c: &Case, obs: &mut Obs) -> Verdict {
+    let r = resolve(c);
+    for x in &r.excluded {
+        obs.excluded(x.clone());
+    }
+    label(c, &r, obs);
+    // render + harness self-check
+    let mut texts = Vec::new();
+    let mut inputs = Vec::new();
+    for (_h, _at, e, b) in &r.cells {
+        match prepare(e, b, 0, 0) {
+            Ok((t, i)) => {
+                texts.push(t);
+                inputs.push(i);
+            }
+            Err(Outcome::Harness(d)) => return Verdict::fail("harness/generator-lexer-disagree", d),
+            Err(_) => unreachable!(),
+        }
+    }
+    let whole = run_workbook(&r, &texts);
+    // judge every object of the combined run
+    let mut first_fail: Option<(String, String)> = None;
+    if let Ok(o) = &whole {
+        for (i, (host, at, e, b)) in r.cells.iter().enumerate() {
+            let Some(out) = &o.cells[i] else {
+                obs.class("formula-cell-deleted");
+                continue;
+            };
+            let expected = cell_expected(&r, *host, e);
+            if let Outcome::Fail { mode, tok_class, detail } = judge_output(&texts[i], &inputs[i], &expected, Ok(Ok(out.clone()))) {
+                let run = |x: &Expr, bl: &[u8], l: u8, t: u8| attempt_cell(&r, *host, *at, x, bl, l, t);
+                let run_ref = |rn: &RefNode, strip: bool, a: &Area| ref_runner(&r, *host, *at, rn, strip, a);
+                // classify on the isolated cell when it fails alone as well, else by token class
+                let alone = attempt_cell(&r, *host, *at, e, b, 0, 0);
+                let (key, detail) = match alone {
+                    Outcome::Fail { mode, tok_class, detail } => classify(e, b, 0, 0, (mode, tok_class, detail), &run, &run_ref),
+                    _ => (format!("{}-with-other-objects/{}", tok_class, mode), detail),
+                };
+                first_fail = Some((key, detail));
+                break;
+            }
+        }
+        let r0 = Resolved { edits: vec![], ..r.clone() };
+        if first_fail.is_none() {
+            for (i, (holder, parts)) in r.names.iter().enumerate() {
+                if judge_name(&r0, *holder, parts, &o.names0[i]).is_some() {
+                    // not readable even before the history: the address codec, not this property
+                    obs.class("name:baseline-unreadable");
+                    continue;
+                }
+                if let Some((k, d)) = judge_name(&r, *holder, parts, &o.names[i]) {
+                    first_fail = Some((k, d));
+                    break;
+                }
+            }
+        }
+        if first_fail.is_none() {
+            for (i, (_holder, parts)) in r.series.iter().enumerate() {
+                if judge_series(&r0, parts, &o.series0[i]).is_some() {
+                    obs.class("series:baseline-unreadable");
+                    continue;
+                }
+                if let Some((k, d)) = judge_series(&r, parts, &o.series[i]) {
+                    first_fail = Some((k, d));
+                    break;
+                }
+            }
+        }
+    }
+    if let Err(p) = &whole {
+        // attribute the panic to the first object that panics (or fails) alone
+        for (host, at, e, b) in r.cells.iter() {
+            if let Outcome::Fail { mode, tok_class, detail } = attempt_cell(&r, *host, *at, e, b, 0, 0) {
+                let run = |x: &Expr, bl: &[u8], l: u8, t: u8| attempt_cell(&r, *host, *at, x, bl, l, t);
+                let run_ref = |rn: &RefNode, strip: bool, a: &Area| ref_runner(&r, *host, *at, rn, strip, a);
+                let (key, detail) = classify(e, b, 0, 0, (mode, tok_class, detail), &run, &run_ref);
+                return Verdict::fail(key, detail);
+            }
+        }
+        for (holder, parts) in r.names.iter() {
+            if let Some((k, d)) = attempt_name(&r, *holder, parts) {
+                return Verdict::fail(k, d);
+            }
+        }
+        for (holder, parts) in r.series.iter() {
+            if let Some((k, d)) = attempt_series(&r, *holder, parts) {
+                return Verdict::fail(k, d);
+            }
+        }
+        let mode = if p.msg.contains("umya_verif: tokenizer made no progress") { "no-termination".to_string() } else { format!("panic:{}", p.site()) };
+        return Verdict::fail(format!("workbook/{}", mode), p.short());
+    }
+    match first_fail {
+        Some((k, d)) => Verdict::fail(k, d),
+        None => Verdict::Pass,
+    }
+}
+
+fn subs() -> Vec<Box<dyn DynSub>> {
+    vec![
+        Box::new(Sub { name: "cells", strategy: cells_cases, cases: (2200, 30_000), check, max_shrink_iters: 2500 }),
+        Box::new(Sub { name: "defined-names", strategy: names_cases, cases: (1000, 12_000), check, max_shrink_iters: 2500 }),
+        Box::new(Sub { name: "chart-series", strategy: series_cases, cases: (600, 8_000), check, max_shrink_iters: 2500 }),
+        Box::new(Sub { name: "dirty", strategy: dirty_cases, cases: (400, 5_000), check, max_shrink_iters: 2500 }),
+    ]
 }
